@@ -22,7 +22,9 @@ TECHNIQUE = (
 LEVEL_TEXT = (
     "Thorough completes every byte string of length 0..3 (1 + 256 + 65,536 + 16,777,216) through CEMIFrame.from_knx "
     "(quick: lengths 0..2 complete, length 3 sampled with a stride); every longer input is generated: all 256 message codes x "
-    "tiny/plausible bodies, M_Prop bodies of every length 0..12 and every object-type value, every Ctrl1 x Ctrl2 octet, every "
+    "tiny/plausible bodies, M_Prop bodies of every length 0..12 and every object-type value, every well-formed M_Prop* / M_Reset / "
+    "M_FuncProp* body shape (read req, read con positive / negative, write req, write con positive / negative, info ind) and short "
+    "L_Data shape x every octet position x every value 0..255, every Ctrl1 x Ctrl2 octet, every "
     "TPCI octet x destination kind x NPDU-length variant (consistent, +1, -1, 0, 255), an APDU corpus over every 10-bit APCI x "
     "lengths 1..257 behind seeded additional-info variants (absent, consistent, overrunning, 255, short), truncations / "
     "single-octet substitutions of valid frames, noise.  Exploration: the long-frame space is sampled, not completed."
